@@ -454,12 +454,14 @@ def check_config_items(ctx, job):
     item.lb = cc.ListField(cc.BytesField())
     item.inner.b = cc.BytesField()
     item.inner.ch = cc.ChallengeField("sha1")
+    item.inner.sec = cc.SecureField(method="aes")
     s = cc.Schema()
     typ = cc.make_type(item, "ItemWithEncodedFields") if job["cfgitems"] == "ctype" else item
     s.f = cc.ListField(typ)
     case = {"cfgitems": job["cfgitems"], "job": job.get("name", "cfgitems")}
     for n_items in (0, 1, 2):
-        cfg = s()
+        # the owning configuration names its own key file: items decode their secrets through their owner
+        cfg = cc.Config(s, key_filename=os.path.join(ctx.tmp, "c05-items.key"))
         field = s._fields["f"]
         items = []
         for i in range(n_items):
@@ -472,6 +474,7 @@ def check_config_items(ctx, job):
             it.lb = [b"\x01", b"ab"]
             it.inner.b = b"inner-\xfe"
             it.inner.ch = "ipw"
+            it.inner.sec = "inner-secret-%d" % i
             items.append(it)
         ctx.transitions += 1
         ctx.states += 1
